@@ -302,6 +302,22 @@ def c08c(chk, g):
     if outer is None:
         chk.fail("C08.c", "genotype::From/outer-option-match", f.loc(), "match on the Option<VcfGenotype> argument not recognised")
         return
+    # a sample without any call (the Option argument is None) is a missing genotype: skipped, never an error and never counted
+    ot_ = f.term(outer[0])
+    none_t = an.edge_target(ot_, 0)
+    if none_t is not None and none_t != outer[1]:
+        absent = an.arm_region(f, outer[0], none_t) | {none_t}
+        outs = []
+        for b, rv in g.aggregates():
+            if b in absent and b not in an.arm_region(f, outer[0], outer[1]):
+                sub = None
+                if rv["variant"] == "Skipped":
+                    l_ = op_local(rv["ops"][0])
+                    d_ = f.single_def(f.copy_root(l_)) if l_ is not None else None
+                    sub = d_[3]["variant"] if d_ and d_[0] == "assign" and d_[3]["k"] == "aggregate" else None
+                outs.append("%s%s" % (rv["variant"], "(%s)" % sub if sub else ""))
+        chk.ob("C08.b", "genotype::From/absent-call->Missing", outs == ["Skipped(Missing)"], f.loc(outer[0]),
+               "when the sample has no call at all the only outcome is Skipped(Missing) (outcomes built on the None edge: %s)" % (outs or "none"))
     below = an.arm_region(f, outer[0], outer[1])
     other = [(rv["variant"], f.loc(b)) for b, rv in g.aggregates() if b in below and rv["variant"] != "Error" and not an.dominated_by_edge(f, sb, t_dip, b)]
     chk.ob("C08.c", "genotype::From/non-diploid-yields-only-Error", not other, f.loc(sb),
